@@ -1331,3 +1331,13 @@ func first(a, _ []byte) []byte { return a }
 //@   ensures[arg_bytes_unchanged] sameBytes(k, 0, blen(k.obj))
 //@   ensures[results_do_not_alias_arg] fresh(result0) && fresh(result1) && atype(result0.obj) == 1000 && atype(result1.obj) == 1000
 //@   ensures[scratch_bounded] scratchLen(cok.buf) == len(result1)
+
+// The predicates Prefix hands to filter: true exactly when the (restored) key starts with p.
+//@ func (*alphaSortedTree[K,V]).Prefix$1
+//@   opt bind K=[]byte
+//@   ensures[is_has_prefix] result == (len(p) <= len(k) && bytesEq(mkslice(k.obj, k.off, len(p)), p))
+//@   ensures[pure] frame()
+
+//@ func (*collationSortedTree[K,V]).Prefix$1
+//@   opt bind K=string
+//@   ensures[is_has_prefix] result == (len(keyS) <= len(k) && bytesEq(mkslice(k.obj, k.off, len(keyS)), keyS))
